@@ -22,7 +22,7 @@ RULE = (
 ASSUMPTIONS = ["MINRES stops on relative update size every 10th iteration, so its residual is judged against 2 rho^j for the COUNTED number j of matrix products (floor 1e-9 float64)",
                "quadrature accuracy 1e-6 relative is asserted only for n <= 20 or cond <= 1e2 (exact extreme-eigenvalue estimates), as the statement says"]
 CHUNK = 30
-CASE_TIMEOUT = 600
+CASE_TIMEOUT = 3600
 
 from linear_operator.utils.minres import minres  # noqa: E402
 from linear_operator.utils.contour_integral_quad import contour_integral_quad  # noqa: E402
